@@ -177,6 +177,17 @@ def r04_5(ctx):
                         a = a.replace("undefined()", "VOID0")
                     ok = bool(NONEMPTY_MODS.search(a)) and bool(VOID_FILL.search(a)) and a.rstrip().endswith("else argument")
                     r.ob("%s.%s is `void 0` when modifiers exist without an argument" % (n["adt"].split("::")[-1], fld), ok, C.mloc(b, n), a[:150])
+    # every construction of a directive takes its modifiers from what was parsed (an early `return` with `modifiers: None` forgets the suffixes)
+    for b in ctx.facts.hir:
+        if b["crate"] != VISITOR_CRATE or not b["path"].startswith("directive::") or b.get("mac"):
+            continue
+        k_ = 0
+        for n in walk(b["body"]):
+            if n.get("k") == "Struct" and (n.get("adt") or "") in ("directive::NormalDirective", "directive::VModelDirective"):
+                k_ += 1
+                mv = expr_str({f["name"]: f["e"] for f in n["fields"]}.get("modifiers", {}))
+                r.ob("%s: %s #%d takes its modifiers from the parsed ones" % (b["name"], n["adt"].split("::")[-1], k_), mv != "None", C.mloc(b, n),
+                     mv[:60] if mv != "None" else "`modifiers: None` on this path: `_suffix` modifiers of the attribute name are dropped")
     mb = C.role(ctx, "modifiers_builder")
     if mb:
         t = expr_str(mb["body"])
@@ -259,6 +270,10 @@ def r04_8(ctx):
             forms["container"] = True
         if any("Lit(Str(" in p for p in pats) and any(x.get("k") == "Struct" and x.get("adt") == AST + "Str" for x in walk(rhs)):
             forms["string"] = True
+            tc_ = C.role(ctx, "text_cleaner")
+            cleaned = tc_ is not None and any(x.get("k") == "Call" and x.get("callee") == tc_["path"] for x in walk(rhs))
+            r.ob("a string directive value is passed as written", not cleaned, C.mloc(dp, n),
+                 "built from str.value" if not cleaned else "the string goes through the JSX text cleaner: line breaks and indentation inside a directive's string value are rewritten")
     r.ob("value taken from an expression container", forms["container"], C.mloc(dp, dp), "`value = ..` under JSXExprContainer(..)" if forms["container"] else "not found")
     r.ob("value taken from a string literal attribute", forms["string"], C.mloc(dp, dp),
          "`value = Lit(Str(..))` under Lit(Str(..))" if forms["string"] else "no `value = <string literal>` under a `JSXAttrValue::Lit(Lit::Str(..))` pattern: `v-foo=\"text\"` binds `void 0`")
